@@ -252,11 +252,23 @@ func TestVerifC19(t *testing.T) {
 		certs []string
 	}
 	factors := []factor{{"password", []string{"password"}}, {"totp", []string{"TOTP"}}}
+	rounds := 1
+	if verifThorough() {
+		rounds = 8 // fresh users, fresh client keys: more private material to look for on the wire
+	}
+	suffix := func(round int) string {
+		if round == 0 {
+			return ""
+		}
+		return fmt.Sprint(round)
+	}
 	for _, f := range factors {
 		users := map[string]string{}
-		for _, pref := range []string{"rsa", "p256", "p384"} {
-			for _, a := range []string{"a", "n"} {
-				users["u"+pref+a] = "alice-pw-19"
+		for round := 0; round < rounds; round++ {
+			for _, pref := range []string{"rsa", "p256", "p384"} {
+				for _, a := range []string{"a", "n"} {
+					users["u"+pref+a+suffix(round)] = "alice-pw-19"
+				}
 			}
 		}
 		d, err := verifStartDaemon(verifDaemonOpts{Name: "c19-" + f.name, Users: users,
@@ -266,19 +278,24 @@ func TestVerifC19(t *testing.T) {
 			return
 		}
 		defer d.Stop()
-		for _, pref := range []string{"rsa", "p256", "p384"} {
-			for _, withAgent := range []bool{true, false} {
-				user := "u" + pref + map[bool]string{true: "a", false: "n"}[withAgent]
-				secret, iters := "", 2
-				if f.name == "totp" {
-					// one accepted code per 30-s period and user: a single run per (enrolled) user
-					iters = 1
-					if secret, err = c19EnrollTOTP(d, user, "alice-pw-19"); err != nil {
-						rep.Inconc("TOTP enrolment on the real daemon: %v", err)
-						return
+		for round := 0; round < rounds; round++ {
+			for _, pref := range []string{"rsa", "p256", "p384"} {
+				for _, withAgent := range []bool{true, false} {
+					user := "u" + pref + map[bool]string{true: "a", false: "n"}[withAgent] + suffix(round)
+					secret, iters := "", 2
+					if round%2 == 1 {
+						iters = 3
 					}
+					if f.name == "totp" {
+						// one accepted code per 30-s period and user: a single run per (enrolled) user
+						iters = 1
+						if secret, err = c19EnrollTOTP(d, user, "alice-pw-19"); err != nil {
+							rep.Inconc("TOTP enrolment on the real daemon: %v", err)
+							return
+						}
+					}
+					c19OneConfig(t, rep, d, logger, pref, f.name, secret, withAgent, user, iters)
 				}
-				c19OneConfig(t, rep, d, logger, pref, f.name, secret, withAgent, user, iters)
 			}
 		}
 	}
@@ -561,7 +578,7 @@ func c19OneConfig(t *testing.T, rep *verifReport, d *verifDaemon, logger *debugl
 				rep.Violate("C19/agent-duplicates/"+l, fmt.Sprintf("after two runs the agent holds %d certificates with label %s", n, l), run)
 			}
 		}
-		if iters == 2 {
+		if iters >= 2 {
 			rep.Count("agent_duplicate_checks", 1)
 		}
 		if len(labels) < 2 {
